@@ -157,15 +157,17 @@ def sniffLE (b : List UInt8) : Str :=
   let hasNl := first.length < b.length
   if hasNl && first.getLast? == some 13 then ['\r', '\n'] else ['\n']
 
-/-- `BufRead::lines` on raw bytes: split at `\n`, drop one trailing `\r`, no final empty piece -/
+/-- `BufRead::lines` on raw bytes: split at `\n`; a piece that was ended by `\n` loses one trailing `\r`
+    (`\r\n` is one terminator), the last piece without `\n` is kept as it is (a lone final `\r` stays);
+    no final empty piece -/
 def byteLines : List UInt8 → List (List UInt8)
   | [] => []
   | b =>
     let rec go : List UInt8 → List UInt8 → List (List UInt8)
       | [], acc => if acc.isEmpty then [] else [acc.reverse]
-      | 10 :: rest, acc => acc.reverse :: go rest []
+      | 10 :: rest, acc => (if acc.head? == some 13 then acc.tail.reverse else acc.reverse) :: go rest []
       | x :: rest, acc => go rest (x :: acc)
-    (go b []).map (fun l => if l.getLast? == some 13 then l.dropLast else l)
+    go b []
 
 /-- decoded lines up to the first undecodable one, and whether all were decodable -/
 def decodeLines : List (List UInt8) → List Str × Bool
